@@ -400,7 +400,7 @@ func TestEngineIndexerService(t *testing.T) {
 				return hashes
 			}
 			waitFor := func(cond func() bool) bool {
-				for i := 0; i < 100; i++ {
+				for i := 0; i < 1200; i++ { // up to a minute: a loaded machine is slow, not wrong
 					if cond() {
 						return true
 					}
